@@ -100,6 +100,30 @@ def check_cells(rep, rule, oid, term, word, where, what):
     rep.ob(oid, rule, VIOLATED if bad else HOLDS, bad or '%d exponent cells (normal 1..30: s|E+112|M<<13, 31: s|0xff|M<<13, zero): 63,490 of 65,536 patterns' % ncell, where,
            sample=None if bad else '%s: %s' % (what, T.show(term, 4)[:300]))
 
+def check_f16c(rep, f, where, rule='R02.f16c'):
+    """f = (float->half graph, half->float graph) of the F16C build"""
+    c = uses(f[0], lambda y: y.op == 'call' and 'vcvtps2ph' in str(y.attr))
+    if c is None:
+        rep.ob('vcvtps2ph immediate', rule, VIOLATED, 'no vcvtps2ph in the F16C float->half', where)
+    else:
+        imm = c.args[1]
+        ok = imm.op == 'const' and (imm.attr[1] & 0x7) == 0
+        rep.ob('vcvtps2ph immediate', rule, HOLDS if ok else VIOLATED, 'imm8 = %s: rounding control = nearest-even, MXCSR not consulted' % (imm.attr[1] if imm.op == 'const' else '?') if ok else
+               'rounding immediate is %s: bits 1:0 must be 00 (round to nearest even) and bit 2 clear (do not use MXCSR.RC)' % T.show(imm), where)
+        src = c.args[0]
+        ok2 = src.op == 'insertelement' and src.args[1].op == 'arg'
+        rep.ob('vcvtps2ph operand', rule, HOLDS if ok2 else VIOLATED, '' if ok2 else 'the converted value is %s, expected the argument unmodified' % T.show(src, 3), where, nontrivial=False)
+    h = f[1]
+    ok3 = h.op == 'fpext' and h.args[0].op == 'bitcast' and h.args[0].args[0].op == 'arg'
+    rep.ob('vcvtph2ps operand', rule, HOLDS if ok3 else VIOLATED, '' if ok3 else 'half->float on F16C is %s, expected the conversion of h unmodified' % T.show(h, 4), where, nontrivial=False)
+
+def f16c_graphs(ws):
+    """value graphs of the two conversion functions in the F16C build (C11)"""
+    flags = dict(BACKENDS)['f16c']; lang, std, src = LANGS[0]
+    mod = ws.module('c02_f16c_only', src, lang=lang, std=std, extra=flags, prefixes=('w_',))
+    I = vg.Interp(mod)
+    return (hoist(I.run('w_f2h').ret()), hoist(I.run('w_h2f').ret()), I)
+
 def main(rep, ws, tier):
     ws.configure()
     graphs = {}
@@ -164,20 +188,7 @@ def main(rep, ws, tier):
             check_cells(rep, 'R02.shift', 'imath_half_to_float[no-table] cells', inner, word, where, 'bit-shift half->float')
     # R02.f16c
     if f:
-        c = uses(f[0], lambda y: y.op == 'call' and 'vcvtps2ph' in str(y.attr))
-        if c is None:
-            rep.ob('vcvtps2ph immediate', 'R02.f16c', VIOLATED, 'no vcvtps2ph in the F16C float->half', where)
-        else:
-            imm = c.args[1]
-            ok = imm.op == 'const' and (imm.attr[1] & 0x7) == 0
-            rep.ob('vcvtps2ph immediate', 'R02.f16c', HOLDS if ok else VIOLATED, 'imm8 = %s: rounding control = nearest-even, MXCSR not consulted' % (imm.attr[1] if imm.op == 'const' else '?') if ok else
-                   'rounding immediate is %s: bits 1:0 must be 00 (round to nearest even) and bit 2 clear (do not use MXCSR.RC)' % T.show(imm), where)
-            src = c.args[0]
-            ok2 = src.op == 'insertelement' and src.args[1].op == 'arg'
-            rep.ob('vcvtps2ph operand', 'R02.f16c', HOLDS if ok2 else VIOLATED, '' if ok2 else 'the converted value is %s, expected the argument unmodified' % T.show(src, 3), where, nontrivial=False)
-        h = f[1]
-        ok3 = h.op == 'fpext' and h.args[0].op == 'bitcast' and h.args[0].args[0].op == 'arg'
-        rep.ob('vcvtph2ps operand', 'R02.f16c', HOLDS if ok3 else VIOLATED, '' if ok3 else 'half->float on F16C is %s, expected the conversion of h unmodified' % T.show(h, 4), where, nontrivial=False)
+        check_f16c(rep, f, where)
     # R02.gen
     gsrc = '#define main imath_gen_main\n#include "%s/src/Imath/toFloat.cpp"\nextern "C" {\n' % build.REPO
     for E in range(1, 32):
@@ -214,5 +225,6 @@ def main(rep, ws, tier):
     # the shared software conversion is itself IEEE-exact - which is what the C01 rules decide.  They are run here
     # as part of this property so that a change of the software rounding is reported as a back-end divergence too.
     from . import c01
+    rep._c01_from_c02 = True      # the F16C rules were already evaluated above (R02.f16c)
     c01.main(rep, ws, tier)
 
